@@ -305,6 +305,14 @@ def check_write_exact(rep, facts, b, rule='R12.3'):
     # the whole buffer is written by one copy on every path
     copies = [(bi, a.arg_val(bi, 0)) for bi, t, c in a.calls(lambda c: c['name'] == 'copy_from_slice')]
     whole = [bi for bi, dst in copies if dst == ('param', 2) and all(a.cfg.dominates(bi, r) for r in a.cfg.returns)]
+    if not copies:
+        # a wrapper whose only field serialises itself straight into the whole buffer (same OutputSize)
+        for bi, t, c in a.calls(lambda c: c['name'] == 'write_exact' and c.get('trait') == 'Serializable'):
+            inner_ty = (c.get('self_ty') or (c.get('generic_args') or [None])[0])
+            same = inner_ty is not None and size_of_self(facts, inner_ty) == n_self and n_self is not None
+            if pp(a.arg_val(bi, 0)) == '&*p1.0' and a.arg_val(bi, 1) == ('param', 2) and same and all(a.cfg.dominates(bi, r) for r in a.cfg.returns):
+                whole.append(bi)
+                copies.append((bi, ('param', 2)))
     rep.check(len(whole) == 1 and len(copies) == 1, rule, fn, 'writes-whole-buffer', 'copy_from_slice calls: %s' % [(bi, pp(d)) for bi, d in copies],
               'exactly one whole-buffer copy on every path (no partial write)', where(a))
 
@@ -343,6 +351,9 @@ def check_value_flow(rep, facts, fb, we, rule='R12.6'):
                     x[3][0][2][1].endswith('copy_from_slice') and x[3][0][2][2][1] == ('param', 1):
                 ok = True
                 how = (how or '') + 'a buffer written once by a whole copy of the input'
+            elif x[0] == 'call' and x[1].endswith('GenericArray::clone_from_slice') and x[2] == (('param', 1),):
+                ok = True
+                how = (how or '') + 'GenericArray::clone_from_slice of the whole input'
             elif x[0] == 'okval':
                 y = x[1]
                 if y[0] == 'call' and y[1] == 'core::result::Result::map_err':
@@ -358,6 +369,20 @@ def check_value_flow(rep, facts, fb, we, rule='R12.6'):
         a = get_an(facts, b.key)
         fn = b.key
         cs = a.calls(lambda c: c['name'] == 'copy_from_slice')
+        if not cs:
+            # the wrapped value writes itself (Serializable::write_exact(&self.0, buf)): its own write_exact is checked here too
+            ds = a.calls(lambda c: c['name'] == 'write_exact' and c.get('trait') == 'Serializable')
+            if len(ds) == 1:
+                n += 1
+                dbi = ds[0][0]
+                later = [c2['name'] for b2, t2, c2 in a.calls() if c2 and b2 != dbi and dbi in a.cfg.bwd(b2) and
+                         any(a.arg_val(b2, i) == ('param', 2) for i in range(len(t2['args']))) and c2['name'] not in ('len',)]
+                stores = [st for st, pl in a.deref_stores if pl['l'] == 2]
+                okd = pp(a.arg_val(dbi, 0)) == '&*p1.0' and a.arg_val(dbi, 1) == ('param', 2)
+                rep.check(okd and not later and not stores, rule, fn, 'writes-value-bytes',
+                          'write_exact(&self.0, buf) ; later uses of buf: %s ; direct stores: %d' % (later, len(stores)),
+                          'the buffer receives exactly the encoding of the wrapped value (self.0) and is not modified afterwards', where(a, a.term_point(dbi)))
+            continue
         if len(cs) != 1:
             continue          # reported by R12.3
         n += 1
